@@ -8,18 +8,26 @@
       print_parse : forall s d, from_raw s = OOk ([], d) ->
         exists d', from_raw (display d) = OOk ([], d') /\ doc_eq d' d /\ display d' = display d.
 
-    STATUS.  The statement is proved by the ladder of DESIGN 5.1/5.4.  Rungs proved so far, each
-    for every string / every value, are re-exported below under the names
-    [print_parse_partial_<rung>]; the list at the end of this file says which productions are
-    covered.  The full statement is NOT yet proved; until it is, every accepted document of the
-    generated streams is checked by the `parse` correspondence and by the failing-input search
-    of checks/C04.py (re-parse accepted, nothing left, `==`, second print identical).
+    STATUS.  The direction "print, then parse" is proved COMPLETELY, through all three rungs of
+    DESIGN 5.1/5.4, for every document that satisfies the explicit invariant [printable]
+    (Proofs/DisplayFull.v):
+
+      print_parse_partial_printable : forall d, printable d ->
+        exists d', from_raw (display d) = OOk ([], d') /\ doc_eq d' d /\ impl_eq d d' = true
+                   /\ display d' = display d.
+
+    What is MISSING for [print_parse] itself is the converse of every rung: "every document the
+    parser accepts is printable" ([from_raw s = OOk (r, d) -> printable d]: inversion of each
+    production plus preservation by [build_document]).  Until it is proved, that half is a test:
+    the round-trip oracle of checks/C04.py evaluates the conclusion on the real crates for every
+    accepted document of the generated streams, and the `parse` correspondence ties the model.
 
     The model of the code BEFORE repair 92063b3 refutes the statement
     ([print_parse_refuted_pinned], D11: `Display for XmlDeclarationAttList` printed nothing). *)
 From Coq Require Import List NArith Bool.
 From XmlRs Require Import Base.CPred Model.Peg Gen.XmlcharGen Gen.GrammarXmlGen Model.ParseActions Model.Info Model.Display
-     Proofs.DisplayEq Proofs.PegLemmas Proofs.DisplayLex Proofs.DisplayElem Proofs.DisplayRun.
+     Proofs.DisplayEq Proofs.PegLemmas Proofs.DisplayLex Proofs.DisplayElem Proofs.DisplayRun Proofs.DisplayDoc
+     Proofs.DisplayDtd Proofs.DisplayFull.
 Import ListNotations.
 
 Theorem doc_eq_implies_impl_eq : forall a b, doc_eq a b -> impl_eq a b = true.
@@ -75,14 +83,11 @@ Qed.
                         tree, any depth and width -- TOGETHER WITH the infoset construction:
                         parsing the print of an element and building it gives the element back.
 
-    MISSING for the full statement:
-      rung 3 "print, then parse": prolog, XML declaration, Misc, doctypedecl and the declarations
-              the printer writes (ENTITY, NOTATION, ATTLIST, PI); document;
-      the converse direction of every rung ("what the parser returns satisfies the invariant":
-              [item_wf] for the output of [build_document]), which turns the hypothesis of
-              [print_parse_partial_element] into a consequence of [from_raw s = OOk (r, d)].
-    Until then the hypothesis is checked at run time on every accepted document of the generated
-    streams by the round-trip oracle of checks/C04.py (a test, labelled so). *)
+      rung 3:           XML declaration, Misc, prolog, document; system / public literals, external
+                        identifiers, entity values, ENTITY / NOTATION / ATTLIST declarations (all
+                        attribute types and defaults), PIs in the DTD, internal subset, DOCTYPE --
+                        together with build_doctype / build_document.
+    [print_parse_partial_printable] composes them. *)
 Theorem print_parse_partial_name : forall n r : str, name_ok n -> stops (eval is_name_char) r ->
   parses G_xml (NT nt_name) (n ++ r) (TStr n) r.
 Proof. exact parses_name. Qed.
@@ -126,6 +131,17 @@ Theorem print_parse_partial_element : forall ents ext (i : item) (r : str),
   exists e, parse_element (d_item false i ++ r) = POk (e, r) /\ build_element ents ext e = IOk i.
 Proof. exact element_print_parse. Qed.
 
+(** all rungs composed: the printer's output for a printable document is accepted completely and
+    denotes the document itself *)
+Theorem print_parse_partial_printable : forall d, printable d ->
+  exists d', from_raw (display d) = OOk ([], d') /\ doc_eq d' d /\ impl_eq d d' = true /\ display d' = display d.
+Proof. exact print_parse_printable'. Qed.
+
+Theorem print_parse_partial_doctype : forall sa dt, doctype_wf sa dt ->
+  forall r, exists dd, yields (NT nt_doctype_decl) (d_doctype false dt ++ r) (VDeclDoc dd) r
+                       /\ build_doctype false sa dd = IOk dt.
+Proof. exact doctype_round_trip. Qed.
+
 (** the invariant is satisfiable by non-trivial values: a prefixed element with an attribute whose value
     has a text piece and an entity reference, a namespace declaration whose value is a quotation mark,
     text, an empty child element, a hexadecimal character reference and a PI *)
@@ -156,6 +172,8 @@ Proof.
 Qed.
 
 Print Assumptions doc_eq_implies_impl_eq.
+Print Assumptions print_parse_partial_printable.
+Print Assumptions print_parse_partial_doctype.
 Print Assumptions print_parse_partial_element.
 Print Assumptions print_parse_partial_attribute.
 Print Assumptions print_parse_partial_comment.
